@@ -19,6 +19,7 @@ def run_property(prop: str, tier: str, seed: int, only_rule: str | None = None) 
     except ModuleNotFoundError:
         print(f"ANALYSIS-ERROR property={prop} no rule module (property not claimed)")
         return 2
+    ctx = None
     try:
         repo = Repo()
         ctx = Ctx(prop, tier, repo, level=LEVELS.get(prop, "other"))
@@ -33,6 +34,17 @@ def run_property(prop: str, tier: str, seed: int, only_rule: str | None = None) 
         return finish(ctx, seed)
     except AnalysisError as e:
         print(f"ANALYSIS-ERROR property={prop} {e}")
+        # obligations that already failed are concrete, whatever could not be analysed afterwards: report them
+        try:
+            from .report import load_known
+
+            known = {(k["rule"], k["construct"]) for k in load_known() if k.get("property") == prop}
+            if ctx is not None and any(not o["ok"] and (o["rule"], o["construct"]) not in known for o in ctx.obligations):
+                ctx.infos.append(f"analysis incomplete: {e}")
+                finish(ctx, seed)
+                return 1
+        except AnalysisError:
+            pass
         return 2
     except Exception:  # a crash of the analyser is never a violation
         tb = traceback.format_exc()
